@@ -660,7 +660,7 @@ func init() {
 			if tier == "thorough" {
 				return 6 * 40
 			}
-			return 18
+			return 36
 		},
 		Run:       c10Run,
 		MustProbe: []string{"all_truncations", "size_field_boundaries", "message_mutations", "arbitrary_responses", "arbitrary_extensions", "event_log_faults"},
